@@ -40,6 +40,32 @@ class ShrinkBudgetExhausted(KeyboardInterrupt):
   Only ever raised for an example that already fails, so it cannot turn a pass into a failure or vice versa."""
 
 
+class ExampleTimeout(Exception):
+  """One generated example used more CPU time than any terminating case needs (see EXAMPLE_CPU_S)."""
+
+
+EXAMPLE_CPU_S = {'quick': 30.0, 'thorough': 150.0}
+
+
+def _on_alarm(signum, frame):
+  raise ExampleTimeout('example exceeded its CPU budget')
+
+
+def arm():
+  """Per-example CPU-time watchdog (process CPU time, so machine load cannot trigger it): a hang inside the code
+  under test becomes an exception - and thereby a reported violation - instead of a check that never returns.
+  The timer repeats, so that a second hang in the same example is interrupted as well."""
+  import signal
+  t = EXAMPLE_CPU_S.get(os.environ.get('VERIF_TIER_EFFECTIVE', 'thorough'), 150.0)
+  signal.signal(signal.SIGVTALRM, _on_alarm)
+  signal.setitimer(signal.ITIMER_VIRTUAL, t, t)
+
+
+def disarm():
+  import signal
+  signal.setitimer(signal.ITIMER_VIRTUAL, 0, 0)
+
+
 SHRINK_BUDGET_S = {'quick': float(os.environ.get('VERIF_SHRINK_S', '25')), 'thorough': 240.0}
 
 
@@ -190,7 +216,14 @@ class State:
 
 def safe_run(prop, spec):
   try:
-    return prop.run(spec)
+    arm()
+    try:
+      return prop.run(spec)
+    finally:
+      disarm()
+  except ExampleTimeout:
+    return {'viol': [('%s:no-termination' % prop.ID, {'cpu_budget_s': EXAMPLE_CPU_S, 'note': 'the example did not finish within the per-example CPU budget'})],
+            'nt': True, 'cls': ['no-termination'], 'dc': 0}
   except PropertyFailure:
     raise
   except Exception as e:  # a bug in the harness, not in the code under test
